@@ -327,3 +327,70 @@ Theorem c01_wake_example_quiescent :
     nget (r_datalog st) 0 = Some d /\ d_waiters d = [(0, rq)] /\ dr_filter rq = [116] /\
     dr_cursor rq = (1, 250) /\ end_of (d_log d) = 250.
 Proof. exact wake_quiescent_witness. Qed.
+
+(** ---- [MQTT-4.7.3-1] (Router/EmptyTopic.v): a PUBLISH with an empty topic name and no topic
+    alias is refused.  [alias_of props] = the alias property; [empty_topic_reason props] = 0x82
+    (RC_PROTOCOL), or 0x81 when the publish also carries a subscription identifier (tested
+    first).  [processed] (Router/WindowDisc.v): the batch of [id] reaches the packet in state [s].
+    The event closes [id] with that reason; every commit log and the retained store are after the
+    event what they were when the packet was reached: nothing is appended anywhere. *)
+From Rumqtt Require Import Router.WindowDisc Router.WindowThm Router.WindowExamples Router.EmptyTopic.
+From Rumqtt Require Router.RetainedBase.
+From Rumqtt Require Import Router.Model Router.RunDefs.
+
+Theorem c01_empty_topic_rejected : forall (st : rstate) (id : N) (inc : incoming) (b : linkbuf) (s : rstate)
+    (fls : flags) (p : publish) (props : option pprops) (st' : rstate),
+  slab_get (r_ibufs st) id = Some inc -> nthN (r_links st) (i_link inc) = Some b ->
+  processed id (i_client inc) (link_put st (i_link inc) (set_lk_in b [])) flags0 (lk_in b) s fls (PPublish p props) ->
+  p_topic p = [] -> alias_of props = None -> p_qos p <> 2 ->
+  handle_device_payload st id = Ok st' ->
+  exists s1 fl1 st3,
+    handle_packet s id (i_client inc) (PPublish p props) fls = Ok (s1, fl1, true) /\
+    r_datalog s1 = r_datalog s /\ r_datalog st3 = r_datalog s /\
+    handle_disconnection st3 id (Some (empty_topic_reason props)) = Ok st' /\
+    RetainedBase.dl_logs (r_datalog st') = RetainedBase.dl_logs (r_datalog s) /\
+    dl_retained (r_datalog st') = dl_retained (r_datalog s) /\
+    slab_get (r_obufs st') id = None /\
+    forall id', id' <> id ->
+      slab_get (r_conns st') id' = slab_get (r_conns st3) id' /\
+      slab_get (r_obufs st') id' = slab_get (r_obufs st3) id' /\
+      slab_get (r_trackers st') id' = slab_get (r_trackers st3) id' /\
+      slab_get (r_acks st') id' = slab_get (r_acks st3) id' /\
+      slab_get (r_ibufs st') id' = slab_get (r_ibufs st3) id'.
+Proof. exact empty_topic_closes. Qed.
+
+Theorem c01_empty_topic_append : forall (st : rstate) (id : N) (p : publish) (props : option pprops)
+    (st' : rstate) (res : append_res),
+  append_to_commitlog st id p props = Ok (st', res) ->
+  p_topic p = [] -> alias_of props = None ->
+  st' = st /\ res = AppErr (Some (empty_topic_reason props)).
+Proof. exact append_empty_topic. Qed.
+
+Theorem c01_empty_topic_packet : forall (st : rstate) (id : N) (client : str) (p : publish) (props : option pprops)
+    (fl : flags) (st1 : rstate) (fl1 : flags) (brk : bool),
+  handle_packet st id client (PPublish p props) fl = Ok (st1, fl1, brk) ->
+  p_topic p = [] -> alias_of props = None -> p_qos p <> 2 ->
+  brk = true /\ f_disconnect fl1 = true /\ f_reason fl1 = Some (empty_topic_reason props) /\
+  r_datalog st1 = r_datalog st /\ r_obufs st1 = r_obufs st /\ r_links st1 = r_links st.
+Proof. exact empty_topic_rejected. Qed.
+
+Theorem c01_empty_topic_qos2 : forall (st : rstate) (id : N) (client : str) (pkid : N) (rs : bool) (fl : flags)
+    (st1 : rstate) (fl1 : flags) (brk : bool) (l : acklog) (p : publish) (props : option pprops)
+    (rec : list (publish * option pprops)),
+  handle_packet st id client (PPubRel pkid rs) fl = Ok (st1, fl1, brk) ->
+  slab_get (r_acks st) id = Some l -> a_recorded l = (p, props) :: rec ->
+  p_topic p = [] -> alias_of props = None ->
+  brk = true /\ f_disconnect fl1 = true /\
+  r_datalog st1 = r_datalog st /\ r_obufs st1 = r_obufs st /\ r_links st1 = r_links st.
+Proof. exact empty_topic_rejected_qos2. Qed.
+
+Theorem c01_empty_topic_example :
+  from_init exe_ops = Ok exe_st /\ reachable ex_cfg exe_st /\
+  in_of exe_st 1 = [empty_pub] /\
+  run exe_st (plain [OpData 1; OpConsume; OpConsume]) = Ok exe_st1 /\
+  out_of exe_st1 1 = out_of exe_st 1 ++ [NDisconnect RC_PROTOCOL] /\
+  out_of exe_st1 0 = out_of exe_st 0 /\
+  slab_get (r_obufs exe_st1) 1 = None /\ slab_get (r_obufs exe_st1) 0 <> None /\
+  RetainedBase.dl_logs (r_datalog exe_st1) = RetainedBase.dl_logs (r_datalog exe_st) /\
+  dl_retained (r_datalog exe_st1) = [].
+Proof. exact empty_topic_witness. Qed.
